@@ -350,6 +350,23 @@ Theorem C03_expired_cookie_zero_mac2 : forall d p e ts idx c age,
 Proof. exact expired_cookie_zero_mac2. Qed.
 Print Assumptions C03_expired_cookie_zero_mac2.
 
+(* with a cookie held, MAC2 is the MAC under it over everything before the MAC2 field *)
+Theorem C03_mac2_under_held_cookie : forall peer_pk c body,
+  snd (add_macs peer_pk (Some c) body) = TMac c (TPair body (fst (add_macs peer_pk (Some c) body))).
+Proof. reflexivity. Qed.
+Print Assumptions C03_mac2_under_held_cookie.
+
+(* A change of the private key between ConsumeMessageInitiation and CreateMessageResponse voids
+   the consumed initiation: nothing is sent and the device is exactly the re-keyed device (every
+   handshake cleared, no new keypair) -- no session under the new identity with an initiator that
+   addressed the old one. *)
+Theorem C03_key_change_voids_consumed_initiation : forall d m er idx new,
+  set_key_noop d new = false ->
+  exists d1, dev_step d (EInitKey m er idx new) = (rekey_dev d1 new, []) /\
+             (d1 = d \/ exists p h1, In p (d_peers d) /\ d1 = upd_peer d (upd p h1 (p_kp p) (p_staged p))).
+Proof. exact key_change_voids_consumed_initiation. Qed.
+Print Assumptions C03_key_change_voids_consumed_initiation.
+
 (* ---- non-vacuity ------------------------------------------------------------ *)
 
 (* device 1 with peers 2 (psk 7) and 3 (no psk): peer 2 initiates, the device
@@ -539,5 +556,40 @@ Example C03_nonvacuous_cookie_expiry :
     | _ => false
     end
   | _ => false
+  end = true.
+Proof. vm_compute. reflexivity. Qed.
+
+(* responder role: the initiator, under load, answers the device's response with a cookie reply
+   (receiver = sender index of the response, by then the index of the new keypair); the next
+   response carries MAC2 under that cookie *)
+Example C03_nonvacuous_cookie_for_responder :
+  match Paper.initiation 2%nat 20%nat (TPub 1%nat) 5 1000, Paper.initiation 2%nat 21%nat (TPub 1%nat) 6 1001 with
+  | Some (_, m1), Some (_, m2) =>
+    match dev_step ex_dev (EInit m1 30%nat 2000) with
+    | (d1, [OResp 2%nat r1]) =>
+      let d2 := fst (dev_step d1 (ECookie 2000 1 (TAead (cookie_key (TPub 2%nat)) 1 (TC 100) (r_mac1 r1)))) in
+      match dev_step d2 (EInit m2 31%nat 2001) with
+      | (_, [OResp 2%nat r2]) => is_zero (r_mac2 r1) && teqb (r_mac2 r2) (TMac (TC 100) (TPair (resp_body r2) (r_mac1 r2)))
+      | _ => false
+      end
+    | _ => false
+    end
+  | _, _ => false
+  end = true.
+Proof. vm_compute. reflexivity. Qed.
+
+(* an initiation for key 1 is consumed, the key changes to 9 before the response is built:
+   nothing is sent, peer 2 has no keypair and no open handshake *)
+Example C03_nonvacuous_key_change_in_flight :
+  match Paper.initiation 2%nat 20%nat (TPub 1%nat) 5 1000 with
+  | Some (_, m1) =>
+    match dev_step ex_dev (EInitKey m1 30%nat 2000 9%nat) with
+    | (d1, []) =>
+      (d_static d1 =? 9)%nat &&
+      forallb (fun p => (st (p_hs p) =? handshakeZeroed) &&
+                        match next (p_kp p), current (p_kp p) with None, None => true | _, _ => false end) (d_peers d1)
+    | _ => false
+    end
+  | None => false
   end = true.
 Proof. vm_compute. reflexivity. Qed.
